@@ -760,6 +760,10 @@ pub fn run_c10(rep: &mut StageReport, tier: &str, _seed: u64) {
         for i in 0..n {
             out.push(tokio::time::timeout(Duration::from_secs(90), c10_scenario(server.addr, &certs, i as u64)).await.map_err(|_| "watchdog: scenario did not finish in 90 s".to_string()).and_then(|r| r));
         }
+        // the very first registrations on a fresh topic race (first registrant slow to take its Ok)
+        for i in 0..(if n > 2 { 12 } else { 3 }) {
+            out.push(tokio::time::timeout(Duration::from_secs(60), super::wirepeers::c10_first_registrations_race(server.addr, &certs, i as u64)).await.map_err(|_| "watchdog: first-registrations race did not finish in 60 s".to_string()).and_then(|r| r));
+        }
         server.stop();
         Ok::<_, String>(out)
     });
@@ -777,7 +781,7 @@ pub fn run_c10(rep: &mut StageReport, tier: &str, _seed: u64) {
                     }
                     Ok(f) => {
                         for (sig, detail) in f {
-                            let replay = write_replay("C10", &format!("l3-{}", sig), i as u64, json!({"property": "C10", "detail": detail}));
+                            let replay = write_replay("C10", &format!("l3-{}", sig.replace('/', "_")), i as u64, json!({"property": "C10", "detail": detail}));
                             rep.violation(Violation { signature: format!("C10/l3/{}", sig), detail, replay });
                         }
                     }
